@@ -263,6 +263,8 @@ def check(prop, tier, seed):
                 reasons = k.get("reasons") or [k["reason"]]
                 sites = k.get("sites") or [k["site"]]
                 ctx_ok = ("ctx" not in k) or (field(detail, "ctx") in k["ctx"])
+                # optional narrowing on the failure detail (e.g. one background colour only)
+                ctx_ok = ctx_ok and (("match" not in k) or re.search(k["match"], detail) is not None)
                 if any(fnmatch.fnmatchcase(site, s_) for s_ in sites) and reason in reasons and ctx_ok:
                     hit = k
                     break
@@ -300,7 +302,8 @@ def check(prop, tier, seed):
                     parts = o.split(" ", 4)
                     site, reason = field(parts[4], "site"), field(parts[4], "reason")
                     listed = any((any(fnmatch.fnmatchcase(site, s_) for s_ in (k.get("sites") or [k["site"]])) and reason in (k.get("reasons") or [k["reason"]])
-                                  and (("ctx" not in k) or field(parts[4], "ctx") in k["ctx"])) for k in known)
+                                  and (("ctx" not in k) or field(parts[4], "ctx") in k["ctx"])
+                                  and (("match" not in k) or re.search(k["match"], parts[4]) is not None)) for k in known)
                     if not listed:
                         unlisted.append(("v3", parts[1], parts[4]))
         if unlisted:
